@@ -180,6 +180,10 @@ func (s *Service) handler(ctx context.Context, p p2p.Peer, stream p2p.Stream) (e
 	if err != nil {
 		return err
 	}
+	if signedCheque == nil {
+		// JSON "null" decodes into a nil pointer without error
+		return fmt.Errorf("empty cheque from peer %v", p.Address)
+	}
 
 	return s.traffic.ReceiveCheque(ctx, p.Address, signedCheque)
 }
